@@ -45,6 +45,9 @@ def check_observation(what, obs, results, glob):
     if what == "bad-load":
         return any(ev[0] == "loaded_so_state" and ev[1] != 2 for p, ev in obs)
     if what == "bad-leaf":
+        if any(r == ("return", False) for r in results.values()):
+            # objects other than the requested ones (or in another order): confirm on a real cffi build
+            return replay_real_objects(quiet=True)
         return any(r[0] == "raise" and r[1] != "TimeoutError" for r in results.values())
     if what == "recompile-after-cached":
         return True
@@ -79,7 +82,7 @@ def run_c14(chk, tier):
         props = [
             ("double-build", z3.Or(*[z3.And(M.built[K][p], M.built[K][q]) for p in range(N) for q in range(p + 1, N)]), "two processes both take the build branch"),
             ("bad-load", M.badload[K], "a module is loaded while the shared object is not completely built"),
-            ("bad-leaf", z3.Or(*[M.pc[K][p] == l for p in range(N) for l in bad_leaf]) if bad_leaf else z3.BoolVal(False), "a request ends in something other than objects or TimeoutError although nothing failed"),
+            ("bad-leaf", z3.Or(*[M.pc[K][p] == l for p in range(N) for l in bad_leaf]) if bad_leaf else z3.BoolVal(False), "a request ends in something other than the requested objects in request order, or TimeoutError, although nothing failed"),
             ("recompile-after-cached", z3.Or(*[z3.And(M.started_after_cached[K][p], M.built[K][p]) for p in range(N)]), "a request that started after the ready marker existed compiled again"),
             ("cached-start-not-loaded", z3.Or(*[z3.And(M.started_after_cached[K][p], z3.Or(*[M.pc[K][p] == l for l in all_leaf if l not in ret])) for p in range(N)]), "a request that started after the ready marker existed did not return the cached objects"),
         ]
@@ -220,3 +223,36 @@ def replay_handlers(quiet=False):
         print("REPRODUCED" if bad else "not reproduced")
         return 1 if bad else 0
     return bad
+
+
+def replay_real_objects(quiet=False):
+    """Real cffi builds in a scratch cache: a request for several forms (k * P1 mass), first served by
+    the build branch and then by the cache-hit branch, must return objects whose kernels compute
+    k_i * mass in request order."""
+    import tempfile
+
+    import numpy as np
+
+    import ffcx.codegeneration.jit as jit
+
+    fs = jitbmc._forms()
+    bad = []
+    with tempfile.TemporaryDirectory(dir="/verif/.work") as d:
+        for rnd in ("build", "cache-hit"):
+            objs, mod, _ = jit.compile_forms([f for _, f in fs], cache_dir=d)
+            ffi = mod.ffi
+            for i, ((k, _), o) in enumerate(zip(fs, objs)):
+                integral = o.form_integrals[0]
+                A = np.zeros(9)
+                w = np.zeros(1)
+                c = np.zeros(1)
+                x = np.array([0.0, 0, 0, 1, 0, 0, 0, 1, 0])
+                integral.tabulate_tensor_float64(ffi.cast("double*", A.ctypes.data), ffi.cast("double*", w.ctypes.data), ffi.cast("double*", c.ctypes.data),
+                                                 ffi.cast("double*", x.ctypes.data), ffi.NULL, ffi.NULL, ffi.NULL)
+                if abs(A[0] - k / 12.0) > 1e-12:
+                    bad.append(f"{rnd}: object {i} of the request should compute {k}*mass (A[0]={k / 12.0:.6f}) but computes A[0]={A[0]:.6f}")
+    if not quiet:
+        print("\n".join(bad) or "every request returned its objects in request order")
+        print("REPRODUCED" if bad else "not reproduced")
+        return 1 if bad else 0
+    return bool(bad)
